@@ -70,3 +70,20 @@ func (ex *Exec) callSiteClauses(fr *Frame, calleeName string, nth int) []*CallCl
 	}
 	return out
 }
+
+// mapAccessObligations: typestate obligations a contract attaches to every map
+// access of its function (e.g. "the registry lock is held").
+func (ex *Exec) mapAccessObligations(fr *Frame, st *State, in ssa.Instruction) {
+	c := fr.contract
+	if c == nil {
+		c = ex.prog.contractFor(fr.fn)
+	}
+	if c == nil || len(c.MapAccess) == 0 || ex.discover != nil {
+		return
+	}
+	for _, cl := range c.MapAccess {
+		env := ex.specEnv(fr, st, in.Pos())
+		cond := ex.evalSpecBool(env, cl.Expr)
+		ex.obligeSpec(st, "mapaccess", ex.siteWhat(in)+":"+cl.Label, cond, cl, in)
+	}
+}
